@@ -15,6 +15,9 @@ def run(rep, tier, seed, replay):
         atoms = ["a", "/", "*", "**", "{a,b}", "{a/,b}", "{/a,b}", "{*,a}", "{a,**/b}", "<a:1,>", "<a/:1,>", "</a:1,>", "<a/:0,1>", "</a:0,1>", "<*a:2>", "{{/a,b}c,d}", "<{/a,b}c/:2>", "x", "</a/:1>", "</a/:0,1>", "<a/**:1>"]
         k = 2 if tier == "quick" else 3
         exprs += [e for e in gen.small_scope(k, atoms) if e not in set(exprs)]
+        # the size rule (R7): invariants of 0x10000 bytes or more assembled from one token or from siblings
+        big = ["<a:33000>", "<b:33000>", "<a:65535>", "<a:65536>", "<ab:32768>", "<<a:300>:300>", "<<a:256>:256>", "b", "/", "*", "{<a:33000><b:33000>,c}", "<a:32768><b:32767>", "<é:32768>"]
+        exprs += [e for e in gen.small_scope(2, big) + ["<<a:33000><b:33000>:0,1>", "*/{c,x<a:65535>}", "x{<a:65535>b,c}"] if e not in set(exprs)]
     P = lib.Pair(exprs)
     h, m = P.h, P.m
     rep.evaluations = len(exprs)
@@ -33,8 +36,13 @@ def run(rep, tier, seed, replay):
                 rep.violation("correspondence", "parse: the crate rejects an expression the parser model accepts", {"expr": e}, impl=i["raw"][:200], model=P.model[k]["raw"][:200])
             continue
         rep.traces += 1
-        if i.get("err") == "rule:oversized":
-            rep.stats["oversized (size rule, not part of the structural verdict)"] += 1
+        mo = P.model[k]
+        # R7: the size rule. The model's size rule is the documented limit transcribed (invariant size of every sub-tree < 0x10000)
+        if i.get("err") == "rule:oversized" or mo.get("err") == "rule:oversized":
+            rep.stats["size-rule:" + ("rejected" if i.get("err") == "rule:oversized" else "accepted")] += 1
+            if i.get("err") != mo.get("err") or (not i["ok"] and i.get("spans") != mo.get("spans")):
+                kind = "oracle" if (i["ok"] or mo["ok"]) else "correspondence"
+                rep.violation(kind, "size rule: Glob::new %s an expression whose invariant size the rule model says is %s the limit" % ("builds" if i["ok"] else "rejects (%s)" % i.get("err"), "at or above" if mo.get("err") == "rule:oversized" else "below"), {"expr": e}, impl=i["raw"][:120], model=mo["raw"][:120])
             continue
         iv = "accept" if i["ok"] else "reject"
         rep.stats[iv if i["ok"] else i["err"]] += 1
